@@ -3,9 +3,9 @@
     Definitions only.
 
     INTERFACE ASSUMPTION about the array library (properties C01/C02, proved
-    elsewhere): [Slice(loc, dims, step)], [MustReshape] of a contiguous view,
+    elsewhere): [Slice(loc, dims, step)], [MustReshape] of a contiguous wview,
     [Get1], [Set1], [Set] and [ApplySlice] address the row-major flat offsets of
-    the root buffer that their arguments denote.  A view is therefore modelled
+    the root buffer that their arguments denote.  A wview is therefore modelled
     as the affine map (start, stride per axis, extents) of the Go struct
     (Start / OffsetStep / Dims) and denotes the list [voffsets] of flat
     offsets in row-major order.
@@ -64,35 +64,35 @@ Fixpoint set_idx (l : list nat) (j : nat) (x : nat) : list nat :=
   | y :: r, S j' => y :: set_idx r j' x
   end.
 
-(** A view: Start, OffsetStep, Dims of the Go struct. *)
-Record view := { vstart : nat; vstr : list nat; vdims : list nat }.
-Definition whole (dims : list nat) : view :=
-  {| vstart := 0; vstr := strides dims; vdims := dims |}.
-(** [SliceInto]. [size] may be shorter than the rank of the view (the table
+(** A wview: Start, OffsetStep, Dims of the Go struct. *)
+Record wview := { wstart : nat; wstr : list nat; wdims : list nat }.
+Definition whole (dims : list nat) : wview :=
+  {| wstart := 0; wstr := strides dims; wdims := dims |}.
+(** [SliceInto]. [size] may be shorter than the rank of the wview (the table
     parameter slices of the template are): [dot] then uses the leading strides. *)
-Definition vslice (v : view) (loc size : list nat) (step : option (list nat)) : view :=
-  {| vstart := vstart v + dot loc (vstr v);
-     vstr := match step with None => vstr v | Some st => vmul (vstr v) st end;
-     vdims := size |}.
-(** The flat offsets a view denotes, row-major. *)
-Definition voffsets (v : view) : list nat :=
-  map (fun ix => vstart v + dot ix (vstr v)) (indices (vdims v)).
+Definition vslice (v : wview) (loc size : list nat) (step : option (list nat)) : wview :=
+  {| wstart := wstart v + dot loc (wstr v);
+     wstr := match step with None => wstr v | Some st => vmul (wstr v) st end;
+     wdims := size |}.
+(** The flat offsets a wview denotes, row-major. *)
+Definition voffsets (v : wview) : list nat :=
+  map (fun ix => wstart v + dot ix (wstr v)) (indices (wdims v)).
 Fixpoint list_nat_eqb (a b : list nat) : bool :=
   match a, b with
   | [], [] => true
   | x :: a', y :: b' => Nat.eqb x y && list_nat_eqb a' b'
   | _, _ => false
   end.
-(** The view's elements are consecutive in memory. *)
-Definition contiguous (v : view) : bool :=
-  list_nat_eqb (voffsets v) (seq (vstart v) (lprod (vdims v))).
+(** The wview's elements are consecutive in memory. *)
+Definition contiguous (v : wview) : bool :=
+  list_nat_eqb (voffsets v) (seq (wstart v) (lprod (wdims v))).
 (** [MustReshape] as a live alias: [None] when the sizes differ (panic) or when
-    the view is not contiguous (the Go code then returns a detached COPY, which
+    the wview is not contiguous (the Go code then returns a detached COPY, which
     the wrapper never relies on: lemma [*_view_ok] in RunProofs show that every
-    reshape of the template is of a contiguous view). *)
-Definition reshape (v : view) (newshape : list nat) : option view :=
-  if Nat.eqb (lprod newshape) (lprod (vdims v)) && contiguous v
-  then Some {| vstart := vstart v; vstr := strides newshape; vdims := newshape |}
+    reshape of the template is of a contiguous wview). *)
+Definition reshape (v : wview) (newshape : list nat) : option wview :=
+  if Nat.eqb (lprod newshape) (lprod (wdims v)) && contiguous v
+  then Some {| wstart := wstart v; wstr := strides newshape; wdims := newshape |}
   else None.
 (** [index1] of Get1/Set1: the first axis of extent > 1 (axis 0 for rank 1). *)
 Fixpoint index1_go (ds : list nat) (loc : nat) : list nat :=
@@ -100,10 +100,10 @@ Fixpoint index1_go (ds : list nat) (loc : nat) : list nat :=
   | [] => []
   | d :: r => if 1 <? d then loc :: map (fun _ => 0) r else 0 :: index1_go r loc
   end.
-Definition index1 (v : view) (loc : nat) : list nat :=
-  match vdims v with [_] => [loc] | ds => index1_go ds loc end.
-Definition get1_off (v : view) (loc : nat) : nat := vstart v + dot (index1 v loc) (vstr v).
-Definition len1 (v : view) : nat := nth 0 (vdims v) 0.
+Definition index1 (v : wview) (loc : nat) : list nat :=
+  match wdims v with [_] => [loc] | ds => index1_go ds loc end.
+Definition get1_off (v : wview) (loc : nat) : nat := wstart v + dot (index1 v loc) (wstr v).
+Definition len1 (v : wview) : nat := nth 0 (wdims v) 0.
 
 (** Go's [a % b]: panics for b = 0. *)
 Definition gomod (a b : nat) : option nat := if Nat.eqb b 0 then None else Some (a mod b).
@@ -129,10 +129,10 @@ Definition param_shape (maxd : denv) (nSets : nat) (p : pspec) : list nat :=
   | _ => [nSets]
   end.
 
-(** One view per parameter: [parameters.Slice({paramIdx,0},{paramSize,nSets},nil).MustReshape(newShape)],
+(** One wview per parameter: [parameters.Slice({paramIdx,0},{paramSize,nSets},nil).MustReshape(newShape)],
     [paramIdx] running. *)
 Fixpoint apply_params_from (maxd : denv) (dP : list nat) (nSets paramIdx : nat) (ps : list pspec)
-  : option (list view) :=
+  : option (list wview) :=
   match ps with
   | [] => Some []
   | p :: r =>
@@ -146,7 +146,7 @@ Fixpoint apply_params_from (maxd : denv) (dP : list nat) (nSets paramIdx : nat) 
     | None => None
     end
   end.
-Definition apply_parameters (maxd : denv) (dP : list nat) (ps : list pspec) : option (list view) :=
+Definition apply_parameters (maxd : denv) (dP : list nat) (ps : list pspec) : option (list wview) :=
   apply_params_from maxd dP (nth 1 dP 0) 0 ps.
 
 (** Closed form of what cell [i] (parameter set [c = i mod nSets]) gets: the
@@ -157,20 +157,24 @@ Section Decode.
   Variable V : Type.
   Variable toZ : V -> Z.        (* Go int(x) on float64 *)
   Definition to_dim (v : V) : nat := Z.to_nat (toZ v).   (* negative extents: empty *)
-  Variables (maxd : denv) (nSets c : nat) (pm : nat -> V).
-  Fixpoint param_offs (row : nat) (env : denv) (ps : list pspec) : list (list nat) :=
+  Variable maxd : denv.
+  (** rows of the parameter matrix, given the cell's own column [pcol] *)
+  Fixpoint param_rows (pcol : nat -> V) (row : nat) (env : denv) (ps : list pspec) : list (list nat) :=
     match ps with
     | [] => []
-    | Scalar :: r => [row * nSets + c] :: param_offs (row + 1) env r
-    | DimOf d :: r =>
-      [row * nSets + c] :: param_offs (row + 1) ((d, to_dim (pm (row * nSets + c))) :: env) r
+    | Scalar :: r => [row] :: param_rows pcol (row + 1) env r
+    | DimOf d :: r => [row] :: param_rows pcol (row + 1) ((d, to_dim (pcol row)) :: env) r
     | Table ds :: r =>
-      map (fun ix => (row + dot ix (strides (map (dlookup maxd) ds))) * nSets + c)
-          (indices (map (dlookup env) ds))
-      :: param_offs (row + block_size maxd (Table ds)) env r
+      map (fun ix => row + dot ix (strides (map (dlookup maxd) ds))) (indices (map (dlookup env) ds))
+      :: param_rows pcol (row + block_size maxd (Table ds)) env r
     end.
+  (** flat offsets: row [r] of parameter set [c] is element [r * nSets + c] *)
+  Definition param_offs (nSets c : nat) (pm : nat -> V) (row : nat) (env : denv) (ps : list pspec)
+    : list (list nat) :=
+    map (map (fun r => r * nSets + c)) (param_rows (fun r => pm (r * nSets + c)) row env ps).
 End Decode.
 Arguments to_dim {V} toZ v.
+Arguments param_rows {V} toZ maxd pcol row env ps.
 Arguments param_offs {V} toZ maxd nSets c pm row env ps.
 
 (* ------------------------------------------------------------------ *)
@@ -223,7 +227,7 @@ Section Run.
       [m.X.Get1(i % m.X.Len1())] (scalar; a dimension parameter also binds the
       cell's own extent) or [m.X.Slice({0,..,0,i % nSets}, {d1,..,dk}, nil)]
       (table; all of it is handed to the kernel). *)
-  Fixpoint read_params (sh : shapes) (i : nat) (ps : list pspec) (views : list view) (env : denv)
+  Fixpoint read_params (sh : shapes) (i : nat) (ps : list pspec) (views : list wview) (env : denv)
     : prog cellparams :=
     match ps, views with
     | [], [] => Ret []
@@ -242,7 +246,7 @@ Section Run.
         | None => Fail
         end
       | Table ds =>
-        match gomod i (last (vdims pv) 0) with
+        match gomod i (last (wdims pv) 0) with
         | Some c =>
           let from := map (fun _ => 0) ds ++ [c] in
           let shape := map (dlookup env) ds in
@@ -275,16 +279,16 @@ Section Run.
        statesSizeSlice := set_idx (new_index (dS sh) 1) 1 (nth 1 (dS sh) 0);
        inputsSizeSlice := set_idx (set_idx (new_index inputDims 1) 1 (nth 1 inputDims 0)) 2 inputLen |}.
 
-  Definition with_view {X} (o : option view) (k : view -> prog X) : prog X :=
+  Definition with_view {X} (o : option wview) (k : wview -> prog X) : prog X :=
     match o with Some v => k v | None => Fail end.
-  Definition with_views {X} (o : option (list view)) (k : list view -> prog X) : prog X :=
+  Definition with_views {X} (o : option (list wview)) (k : list wview -> prog X) : prog X :=
     match o with Some v => k v | None => Fail end.
 
   (** The views of one goroutine. *)
-  Definition state_view (sh : shapes) (sv : shared) (i : nat) : option view :=
+  Definition state_view (sh : shapes) (sv : shared) (i : nat) : option wview :=
     let statesPosSlice := set_idx (new_index (dS sh) 0) 0 i in
     reshape (vslice (whole (dS sh)) statesPosSlice (statesSizeSlice sv) None) [numStates sv].
-  Definition input_views (sh : shapes) (sv : shared) (ci : nat) : option (list view) :=
+  Definition input_views (sh : shapes) (sv : shared) (ci : nat) : option (list wview) :=
     let inputsPosSlice := set_idx (new_index (dI sh) 0) 0 ci in
     match reshape (vslice (whole (dI sh)) inputsPosSlice (inputsSizeSlice sv) None) (cellInputsShape sv) with
     | Some cellInputs =>
@@ -292,20 +296,20 @@ Section Run.
                     (seq 0 (n_in sp)))
     | None => None
     end.
-  Definition output_views (sh : shapes) (sv : shared) (i : nat) : option (list view) :=
+  Definition output_views (sh : shapes) (sv : shared) (i : nat) : option (list wview) :=
     let outputPosSlice := set_idx (new_index (dO sh) 0) 0 i in
     sequence (map (fun k => reshape (vslice (whole (dO sh)) (set_idx outputPosSlice 1 k)
                                             (outputSizeSlice sv) (Some (outputStepSlice sv)))
                                     [inputLen sv])
                   (seq 0 (n_out sp))).
   (** target of [states.ApplySlice([]int{i,0}, []int{0,1}, packed)] with packed of shape [1, L] *)
-  Definition packed_state_view (sh : shapes) (i L : nat) : view :=
+  Definition packed_state_view (sh : shapes) (i L : nat) : wview :=
     vslice (whole (dS sh)) [i; 0] [1; L] (Some [0; 1]).
 
   (** Writing the kernel's results: the output rows (the kernel writes them
       through the views it was handed) and the state row ([Set1] per state, resp.
       [states.ApplySlice([]int{i,0},[]int{0,1},pack(...))]). *)
-  Definition cell_writeback (sh : shapes) (sv : shared) (ovs : list view) (i : nat)
+  Definition cell_writeback (sh : shapes) (sv : shared) (ovs : list wview) (i : nat)
              (outs : list (list V)) (st' : list V) : prog unit :=
     bind (wr_rows sh BO (map voffsets ovs) outs) (fun _ =>
     match s_states sp with
@@ -315,7 +319,7 @@ Section Run.
     end).
 
   (** The body of [go func(i int){...}(j)]. *)
-  Definition cell_prog (sh : shapes) (pviews : list view) (i : nat) : prog unit :=
+  Definition cell_prog (sh : shapes) (pviews : list wview) (i : nat) : prog unit :=
     let sv := prologue sh in
     match gomod i (numInputSequences sv) with
     | None => Fail
@@ -337,16 +341,16 @@ Section Run.
     end.
 
   (** Functional run of one cell / of the cells in a given order. *)
-  Definition run_cell (sh : shapes) (pviews : list view) (i : nat) (m : mem) : option mem :=
+  Definition run_cell (sh : shapes) (pviews : list wview) (i : nat) (m : mem) : option mem :=
     let '(r, m', _) := exec addr_eq_dec (cell_prog sh pviews i) m in
     match r with Some _ => Some m' | None => None end.
-  Fixpoint run_order (sh : shapes) (pviews : list view) (order : list nat) (m : mem) : option mem :=
+  Fixpoint run_order (sh : shapes) (pviews : list wview) (order : list nat) (m : mem) : option mem :=
     match order with
     | [] => Some m
     | i :: r => match run_cell sh pviews i m with Some m' => run_order sh pviews r m' | None => None end
     end.
   (** [Run]: all cells [0 .. numCells-1] (the order is immaterial: RunProofs.run_order_perm). *)
-  Definition run (sh : shapes) (pviews : list view) (m : mem) : option mem :=
+  Definition run (sh : shapes) (pviews : list wview) (m : mem) : option mem :=
     run_order sh pviews (seq 0 (numCells (prologue sh))) m.
 
   (* ---------------------------------------------------------------- *)
@@ -374,8 +378,8 @@ Section Run.
 
   (* ---------------------------------------------------------------- *)
   (** * FindDimensions *)
-  (** [Maximum()] of a view: starts from element [0,..,0] (read even when the
-      view is empty), then scans all elements with [v > res]. *)
+  (** [Maximum()] of a wview: starts from element [0,..,0] (read even when the
+      wview is empty), then scans all elements with [v > res]. *)
   Definition maximum (first : V) (vals : list V) : V :=
     fold_left (fun res v => if gtb v res then v else res) vals first.
   Definition pget (sh : shapes) (m : mem) (off : nat) : option V :=
@@ -387,7 +391,7 @@ Section Run.
     | p :: r =>
       let paramSize := block_size maxValues p in
       let v := vslice (whole (dP sh)) [paramIdx; 0] [paramSize; nSets] None in
-      match pget sh m (vstart v), sequence (map (pget sh m) (voffsets v)) with
+      match pget sh m (wstart v), sequence (map (pget sh m) (voffsets v)) with
       | Some first, Some vals =>
         let mx := maximum first vals in
         find_dims_from sh m nSets (paramIdx + paramSize)
